@@ -169,6 +169,22 @@ Theorem C06_row_reaches_site : forall (name chain label : string) (num : Z) (pka
   sget (dict_of_rows [mkpkarow name num chain label pka]) (key_side (mkres am name num chain nt ct)) = Some pka.
 Proof. exact row_reaches_site. Qed.
 
+(* the pH compared with the pKa values is the REQUESTED pH (model: ph_of_args is the
+   identity). This is the model side of a tie that the check enforces at run time: in every
+   end-to-end run the float arriving at apply_pka_values must equal float(requested text),
+   for pH and pKa drawn at full float resolution, through three entry points *)
+Theorem C06_requested_ph_decides : forall ff (ph : Q) rows rs,
+  run_titration ff ph rows rs = pipeline ff ph rows rs.
+Proof. exact requested_ph_decides. Qed.
+
+Example C06_requested_ph_full_resolution :
+  let row := mkpkarow "ASP" 2 "A" (propka_label "ASP" 2 "A") (38 # 10)%Q in
+  let r := mkres true "ASP" 2 "A" false false in
+  fst (run_titration Parse (3796 # 1000)%Q [row] [r]) = [Decided GASP (Patch P_ASH)] /\
+  fst (run_titration Parse (3799999 # 1000000)%Q [row] [r]) = [Decided GASP (Patch P_ASH)] /\
+  fst (run_titration Parse (38 # 10)%Q [row] [r]) = [Decided GASP (Keep false)].
+Proof. exact requested_ph_full_resolution. Qed.
+
 (* main.py keeps only rows whose PROPKA label starts with the residue name *)
 Theorem C06_rows_filtered : forall rows,
   Forall (fun r => prefix_of (row_resname r) (row_label r) = false) rows ->
@@ -221,6 +237,8 @@ Print Assumptions C06_key_collision_guard.
 Print Assumptions C06_key_collision_refuted.
 Print Assumptions C06_row_key_is_lookup_key.
 Print Assumptions C06_row_reaches_site.
+Print Assumptions C06_requested_ph_decides.
+Print Assumptions C06_requested_ph_full_resolution.
 Print Assumptions C06_rows_filtered.
 Print Assumptions C06_pipeline_terminus_refuted.
 Print Assumptions C06_nonvacuous.
